@@ -1215,6 +1215,7 @@ def check_C06(ctx):
     except Broken as b:
         return conclude(ctx, [b])
     broken += prove(ctx, "Acv.Props.C06", C06_THEOREMS)
+    broken += prove(ctx, "Acv.Props.C06Alias", ["Acv.Alias.copy_history_independent", "Acv.Alias.copy_lookup", "Acv.Alias.lookup_overlay", "Acv.Alias.alias_leaks"])
     try:
         n = 24 if ctx.quick() else 120
         runs = 8 if ctx.quick() else 48
